@@ -537,6 +537,7 @@ func runC08(c *Collector, r *Rng, thorough bool) {
 	}
 	c08Keys(c)
 	c08KeyOps(c)
+	c08KeyLabelTwice(c)
 	c08CsigLists(c)
 	c08ByteLikeValues(c)
 }
@@ -1629,4 +1630,41 @@ func mustParse(b []byte) *W {
 		return &W{}
 	}
 	return w
+}
+
+// c08KeyLabelTwice: a COSE_Key whose Params hold one label under two Go integer kinds (the normal form int64 and any
+// other): one COSE label twice. Every one of 64 encodings (Go's map order differs from call to call) is refused;
+// none ever returns bytes with one of the two values silently dropped.
+func c08KeyLabelTwice(c *Collector) {
+	for li, label := range []int64{-1, -2, -3, -4, -70000, 70000} {
+		for ai, alt := range []func(int64) any{
+			func(n int64) any { return int(n) }, func(n int64) any { return int8(n) }, func(n int64) any { return int32(n) },
+			func(n int64) any { return uint16(n) }, func(n int64) any { return uint64(n) },
+		} {
+			other := alt(label)
+			if n, ok := toI64(other); !ok || n != label {
+				continue // the label does not fit that kind
+			}
+			k := cose.Key{Type: cose.KeyTypeEC2, Params: map[any]any{
+				cose.KeyLabelEC2Curve: cose.CurveP256, cose.KeyLabelEC2X: bytes.Repeat([]byte{3}, 32), cose.KeyLabelEC2Y: bytes.Repeat([]byte{4}, 32),
+				int64(-70001): "a", int64(-70002): "b", int64(-70003): "c", int64(-70004): "d"}}
+			k.Params[label] = k.Params[label]
+			if k.Params[label] == nil {
+				k.Params[label] = []byte{1}
+			}
+			k.Params[other] = []byte{2}
+			accepted := 0
+			var sample []byte
+			for rep := 0; rep < 64; rep++ {
+				if out, err := k.MarshalCBOR(); err == nil {
+					accepted++
+					sample = out
+				}
+			}
+			c.Eval("enc/key-label-twice", fmt.Sprint(li, ai), true)
+			if accepted > 0 {
+				c.Fail("C08/nondeterministic", fmt.Sprintf("a key holding label %d under int64 and under %T: %d of 64 encodings succeeded (one of the two values dropped), the others were refused", label, other, accepted), map[string]any{"label": label, "second_kind": fmt.Sprintf("%T", other), "out": hx(sample)})
+			}
+		}
+	}
 }
